@@ -22,7 +22,7 @@ def _expand(c):
     ops = [{"op": "project", "sel": ["all"]}, {"op": "project", "sel": ["none"]}]
     for op in c["ops"]:
         ops.append(op)
-        ops.append({"op": "project", "sel": ["not", op["sel"]]})
+        ops.append({"op": "project", "sel": dict(op["sel"], mode=(op["sel"]["mode"][:-4] if op["sel"]["mode"].endswith("-not") else op["sel"]["mode"] + "-not")) if op["sel"]["mode"] != "random" else ["not", op["sel"]["term"]]})
     return dict(c, ops=ops)
 
 
